@@ -3,6 +3,7 @@ pub mod c06;
 pub mod c07;
 pub mod c08;
 pub mod c09;
+pub mod c10;
 pub mod c13;
 pub mod c14;
 pub mod c15;
@@ -23,6 +24,7 @@ pub fn spec(id: &str) -> Option<PropertySpec> {
         "C07" => c07::spec(),
         "C08" => c08::spec(),
         "C09" => c09::spec(),
+        "C10" => c10::spec(),
         "C13" => c13::spec(),
         "C14" => c14::spec(),
         "C15" => c15::spec(),
